@@ -33,8 +33,8 @@ PROP = 'C15'
 RULE = ('expression trees over an atom pool per N (Paulis with all 4 phases incl. phase-carrying identity, monomials '
         'with coefficients {2.5,-0.5,i,1+2i}, polynomials with repeated strings / unreduced products / tiny terms / '
         'the empty polynomial, lists incl. the empty list, numbers {0,1,2.5,i,-1,-i}); every ordered pair of atoms x '
-        'every operator at the root, every (operator, atom, side) on top of every supported depth-1 node (and once more '
-        'over the core pool in the thorough tier), all balanced depth-2 trees over the core pool; a transition = one '
+        'every operator at the root, every (operator, atom, side) on top of every supported depth-1 node (thorough: once more '
+        'on top of that when both added atoms are core atoms), all balanced depth-2 trees over the core pool; a transition = one '
         'real call whose result (or trace / to_qutip export / indexing) is compared with the dense-matrix reference; '
         'non-trivial = supported call in a tree that contains an atom carrying a phase, a coefficient or a number != 1')
 ASSUMPTIONS = ['dense 2x2 Pauli matrices, numpy kron/matmul are correct (root oracle); qutip Qobj.full() returns the stored matrix',
@@ -47,7 +47,7 @@ BINOPS = ('add', 'sub', 'mul', 'div', 'matmul')
 OPSYM = {'add': '+', 'sub': '-', 'mul': '*', 'div': '/', 'matmul': '@'}
 OPERATOR_TYPES = ('Pauli', 'PauliMonomial', 'PauliPolynomial')
 REFUSALS = (TypeError, NotImplementedError)
-CAP = 3          # violation records per signature and fn call (the rest is only counted)
+CAP = 2          # violation records per signature and fn call (the rest is only counted)
 
 _BASIS = {}
 
@@ -66,8 +66,7 @@ def dense_terms(gs, ps, cs, N):
         return np.zeros((d, d), dtype=complex)
     idx = ref.gindex(gs)
     co = np.asarray(cs, dtype=complex).reshape(-1) * IP[np.asarray(ps, dtype=np.int64).reshape(-1) % 4]
-    vec = np.bincount(idx, weights=co.real, minlength=4 ** N) + 1j * np.bincount(idx, weights=co.imag, minlength=4 ** N)
-    return np.tensordot(vec, basis(N), 1)
+    return (basis(N)[idx] * co[:, None, None]).sum(0)
 
 
 def dense_list(gs, ps, N):
@@ -393,23 +392,25 @@ def pair_disc(lt, rt):
 
 
 class Node(object):
-    __slots__ = ('obj', 'val', 'tn', 'desc', 'trivial', 'parts')
+    __slots__ = ('obj', 'val', 'tn', 'desc', 'trivial', 'parts', 'path')
 
     def __init__(self, obj, val, tn, desc_, trivial, parts=None):
         self.obj, self.val, self.tn, self.desc, self.trivial, self.parts = obj, val, tn, desc_, trivial, parts
+        self.path = None
 
 
 class Ctx(object):
     """Per-call accumulator + the checks."""
 
-    def __init__(self, pkg, N, item):
+    def __init__(self, pkg, N, item, sigcount=None):
         self.B = backend(pkg)
         self.pkg, self.N, self.item = pkg, N, item
         self.d = 2 ** N
         self.n = self.nt = 0
         self.viol = []
-        self.sigcount = {}
+        self.sigcount = {} if sigcount is None else sigcount     # shared by all items of one fn call
         self.extra = {}
+        self.where = None        # position of the running check inside the item: appended to the replay item
 
     def bump(self, k, v=1):
         self.extra[k] = self.extra.get(k, 0) + v
@@ -418,7 +419,7 @@ class Ctx(object):
         c = self.sigcount.get(sig, 0)
         self.sigcount[sig] = c + 1
         if c < CAP:
-            self.viol.append(V(sig, self.item, msg, obs, exp))
+            self.viol.append(V(sig, list(self.item) + ([self.where] if self.where is not None else []), msg, obs, exp))
         else:
             self.bump('more:' + sig)
 
@@ -451,11 +452,12 @@ class Ctx(object):
                 self.bump('unsupported:%s:%s,%s' % (op, L.tn, R.tn))
                 return None
             self.n += 1
-            self.report('C15/%s/%s/%s/raises-%s' % (self.pkg, op, pair_disc(L.tn, R.tn), type(e).__name__),
+            disc = 'operand=empty-polynomial' if (op == 'matmul' and (self.is_empty(L) or self.is_empty(R))) else pair_disc(L.tn, R.tn)
+            self.report('C15/%s/%s/%s/raises-%s' % (self.pkg, op, disc, type(e).__name__),
                         '%s raised %s: %s' % (label, type(e).__name__, str(e)[:160]), None, _short(expv))
             return None
         if expv is None:
-            self.bump('unjudged_return')
+            self.bump('unjudged_return:%s:%s,%s' % (op, L.tn, R.tn))
             return None
         self.n += 1
         triv = L.trivial and R.trivial
@@ -474,12 +476,17 @@ class Ctx(object):
             got = self.B.absval(res, self.N, parts)
             bad = self.same(got, expv)
         except Exception as e:
-            got, bad = None, 'result cannot be read as an operator (%s: %s)' % (type(e).__name__, str(e)[:120])
+            self.report('C15/%s/%s/%s/malformed' % (self.pkg, op, pair_disc(L.tn, R.tn)),
+                        '%s -> %s that cannot be read as an operator (%s)' % (label, tn, str(e)[:160]), None, _short(expv))
+            return None
         if bad:
             self.report('C15/%s/%s/%s/value' % (self.pkg, op, pair_disc(L.tn, R.tn)),
                         '%s -> %s %s: %s' % (label, tn, _objstr(res), bad), _short(got), _short(expv))
             return None
         return Node(res, expv, tn, '(%s)' % label, triv, parts)
+
+    def is_empty(self, X):
+        return X.tn == 'PauliPolynomial' and X.obj.gs.shape[0] == 0
 
     def lost_width(self, res):
         """an EMPTY polynomial whose string array forgot the qubit number (gs.shape == (0, 0))."""
@@ -512,8 +519,8 @@ class Ctx(object):
         elif u.startswith('item:'):
             if spec is None or spec[0] not in ('Y', 'L'):
                 return None
-            sel = select_ref(u[5:], len(spec[1]))
-            if sel is None:
+            sel = select_ref(u[5:], len(spec[1])) if not (self.pkg == 'torch' and u[5:] == '::-1') else None
+            if sel is None:      # torch tensors refuse negative slice steps (ValueError from torch itself): unsupported
                 return None
             idx, picked = sel
             sub = [spec[1][i] for i in picked] if not isinstance(picked, int) else spec[1][picked]
@@ -531,19 +538,25 @@ class Ctx(object):
         if not X.trivial:
             self.nt += 1
         parts = None
+        uname = 'getitem' if u.startswith('item:') else u
         try:
             res = f()
-            if self.B.tname(res) != 'number':
+        except Exception as e:
+            self.report('C15/%s/%s/%s/raises-%s' % (self.pkg, uname, X.tn, type(e).__name__),
+                        '%s raised %s: %s' % (label, type(e).__name__, str(e)[:160]), None, _short(expv))
+            return None
+        tn = self.B.tname(res)
+        try:
+            if tn != 'number':
                 parts = self.B.parts(res, self.N)
             got = self.B.absval(res, self.N, parts)
             bad = self.same(got, expv)
         except Exception as e:
-            self.report('C15/%s/%s/%s/raises-%s' % (self.pkg, u.split(':')[0], X.tn, type(e).__name__),
-                        '%s raised %s: %s' % (label, type(e).__name__, str(e)[:160]), None, _short(expv))
+            self.report('C15/%s/%s/%s/malformed' % (self.pkg, uname, X.tn),
+                        '%s -> %s that cannot be read as an operator (%s)' % (label, tn, str(e)[:160]), None, _short(expv))
             return None
-        tn = self.B.tname(res)
         if bad:
-            self.report('C15/%s/%s/%s/value' % (self.pkg, u.split(':')[0], X.tn),
+            self.report('C15/%s/%s/%s/value' % (self.pkg, uname, X.tn),
                         '%s -> %s %s: %s' % (label, tn, _objstr(res), bad), _short(got), _short(expv))
             return None
         if u == 'reduce':
@@ -624,7 +637,7 @@ class Ctx(object):
         L = len(ps)
         co = np.ones(L, dtype=complex) if cs is None else cs
         for code in ITEM_CODES:
-            sel = select_ref(code, L)
+            sel = select_ref(code, L) if not (self.pkg == 'torch' and code == '::-1') else None
             if sel is None:
                 continue
             idx, picked = sel
@@ -730,10 +743,13 @@ UNARY_ATOM = ('neg', 'reduce', 'as_polynomial', 'as_monomial', 'as_list') + tupl
 
 
 def observe(ctx, X, level, qutip):
+    ctx.where = X.path + ['trace']
     ctx.trace(X)
     if qutip:
+        ctx.where = X.path + ['qutip']
         ctx.qutip(X)
     if level <= 1:
+        ctx.where = X.path + ['index']
         ctx.indexing(X)
 
 
@@ -746,16 +762,22 @@ def expand(ctx, X, level, maxdepth, pl):
         for op in BINOPS:
             for side in (0, 1):
                 A = atom_node(B, spec, N)
+                path = X.path + [[k, op, side]]
+                ctx.where = path + ['value']
                 Y = ctx.bin(op, X, A) if side == 0 else ctx.bin(op, A, X)
                 if Y is None:
                     continue
+                Y.path = path
                 observe(ctx, Y, level, qutip=(level == 2 and core and side == 0))
-                if level < maxdepth:
+                if level < maxdepth and core:
                     expand(ctx, Y, level + 1, maxdepth, pl)
     for u in UNARY_NODE:
+        ctx.where = X.path + [['u', u], 'value']
         Y = ctx.unary(u, X)
         if Y is not None:
+            Y.path = X.path + [['u', u]]
             observe(ctx, Y, level, qutip=(level == 2))
+    ctx.where = X.path + ['unchanged']
     ctx.unchanged(X)
 
 
@@ -768,15 +790,19 @@ def roots(ctx, i, j, pl):
         for op in BINOPS:
             if pl[i][0][0] == 'n' and pl[j][0][0] == 'n':
                 continue
+            ctx.where = [op, 'value']
             Y = ctx.bin(op, atom_node(B, pl[i][0], N), atom_node(B, pl[j][0], N))
             if Y is not None:
+                Y.path = [op]
                 out.append(Y)
     else:
         spec = pl[i][0]
         if spec[0] == 'n':
             return out
         A = atom_node(B, spec, N)
+        A.path = ['atom']
         observe(ctx, A, 0, qutip=True)
+        ctx.where = ['atom', 'unchanged']
         ctx.unchanged(A)
         if spec[0] == 'M':
             # inherited casts on a monomial: recorded, not judged (see module docstring)
@@ -786,20 +812,70 @@ def roots(ctx, i, j, pl):
             except Exception:
                 pass
         for u in UNARY_ATOM:
+            ctx.where = [u, 'value']
             Y = ctx.unary(u, atom_node(B, spec, N), spec)
             if Y is not None:
+                Y.path = [u]
                 out.append(Y)
     return out
+
+
+def replay_tree(ctx, i, j, where, pl, maxdepth):
+    """re-execute exactly one tree and one check: where = [root, step..., what]; root = operator name
+    (j >= 0) | unary name | 'atom'; step = [k, op, side] | ['u', unary]; what = value | trace | qutip |
+    index | unchanged."""
+    B, N = ctx.B, ctx.N
+    root, steps, what = where[0], where[1:-1], where[-1]
+    ctx.where = [root, 'value']
+    if j >= 0:
+        X = ctx.bin(root, atom_node(B, pl[i][0], N), atom_node(B, pl[j][0], N))
+    elif root == 'atom':
+        X = atom_node(B, pl[i][0], N)
+    else:
+        X = ctx.unary(root, atom_node(B, pl[i][0], N), pl[i][0])
+    path = [root]
+    for st in steps:
+        if X is None:
+            return
+        path = path + [st]
+        ctx.where = path + ['value']
+        if st[0] == 'u':
+            X = ctx.unary(st[1], X)
+        else:
+            k, op, side = st
+            A = atom_node(B, pl[k][0], N)
+            X = ctx.bin(op, X, A) if side == 0 else ctx.bin(op, A, X)
+    if X is None:
+        return
+    X.path = path
+    ctx.where = path + [what]
+    if what == 'trace':
+        ctx.trace(X)
+    elif what == 'qutip':
+        ctx.qutip(X)
+    elif what == 'index':
+        ctx.indexing(X)
+    elif what == 'unchanged':
+        if root != 'atom':
+            expand(ctx, X, len(path) + 1, maxdepth, pl)
+        else:
+            ctx.unchanged(X)
 
 
 def fn_trees(items, maxdepth=2):
     """item = [pkg, N, i, j]: all trees whose depth-1 node is `atom_i op atom_j` (j >= 0) or
     `unary(atom_i)` (j = -1)."""
     out = {'n': 0, 'nt': 0, 'viol': [], 'extra': {}, 'samples': []}
+    sc = {}
     for item in items:
-        pkg, N, i, j = item
+        pkg, N, i, j = item[:4]
         pl = pool(N, pkg)
-        ctx = Ctx(pkg, N, item)
+        if len(item) > 4:           # replay of one tree / one check
+            ctx = Ctx(pkg, N, item[:4], sc)
+            replay_tree(ctx, i, j, item[4], pl, maxdepth)
+            _merge(out, ctx)
+            continue
+        ctx = Ctx(pkg, N, item, sc)
         for Y in roots(ctx, i, j, pl):
             observe(ctx, Y, 1, qutip=True)
             expand(ctx, Y, 2, maxdepth, pl)
@@ -843,7 +919,7 @@ def d1_specs(N, pkg):
 def build_d1(ctx, spec3, pl, quiet=True):
     op, i, j = spec3
     B, N = ctx.B, ctx.N
-    n0, nt0, nv = ctx.n, ctx.nt, len(ctx.viol)
+    n0, nt0, nv, sc0, ex0 = ctx.n, ctx.nt, len(ctx.viol), dict(ctx.sigcount), dict(ctx.extra)
     if j >= 0:
         Y = ctx.bin(op, atom_node(B, pl[i][0], N), atom_node(B, pl[j][0], N))
     else:
@@ -851,6 +927,10 @@ def build_d1(ctx, spec3, pl, quiet=True):
     if quiet:     # depth-1 nodes are judged (and counted) in the trees leg; here they are only operands
         ctx.n, ctx.nt = n0, nt0
         del ctx.viol[nv:]
+        ctx.sigcount.clear()
+        ctx.sigcount.update(sc0)
+        ctx.extra.clear()
+        ctx.extra.update(ex0)
     return Y
 
 
@@ -858,22 +938,32 @@ def fn_balanced(items):
     """item = [pkg, N, k]: k-th depth-1 tree over the core pool as LEFT operand, every depth-1
     tree over the core pool as right operand, every operator (balanced depth-2 trees)."""
     out = {'n': 0, 'nt': 0, 'viol': [], 'extra': {}}
+    sc = {}
     for item in items:
-        pkg, N, k = item
+        pkg, N, k = item[:3]
+        only = item[3] if len(item) > 3 else None      # replay: [index of the right tree, operator, what]
         pl = pool(N, pkg)
         specs = d1_specs(N, pkg)
-        ctx = Ctx(pkg, N, item)
+        ctx = Ctx(pkg, N, item[:3], sc)
         Lnode = build_d1(ctx, specs[k], pl)
         if Lnode is not None:
-            for s in specs:
+            for si, s in enumerate(specs):
+                if only is not None and only[0] != si:
+                    continue
                 Rnode = build_d1(ctx, s, pl)
                 if Rnode is None:
                     continue
                 for op in BINOPS:
+                    if only is not None and only[1] != op:
+                        continue
+                    ctx.where = [si, op, 'value']
                     Y = ctx.bin(op, Lnode, Rnode)
-                    if Y is not None:
+                    if Y is not None and (only is None or only[2] == 'trace'):
+                        ctx.where = [si, op, 'trace']
                         ctx.trace(Y)
-            ctx.unchanged(Lnode)
+            if only is None:
+                ctx.where = [-1, '', 'unchanged']
+                ctx.unchanged(Lnode)
         _merge(out, ctx)
     return out
 
@@ -889,15 +979,17 @@ def red_terms(N, pkg):
 
 
 def fn_reduce(items):
-    """item = [pkg, N, t1, t2, full]: polynomials (t1), (t1,t2) and (t1,t2,t3) for every third
-    term t3 (full=1) or only the 1- and 2-term ones (full=0), t = index into red_terms or -1;
-    reduce() with every tolerance of RED_TOLS.  Checks: strings merged, phases moved into the
-    coefficients, a string is dropped only if |aggregated coefficient| <= tol, kept coefficients
-    exact, ||before - after|| <= (#dropped) * tol."""
+    """item = [pkg, N, t1, t2, mode]: polynomials (), (t1), (t1,t2) and - mode >= 1 - (t1,t2,t3) for
+    every third term t3; t = index into red_terms or -1.  reduce() with every tolerance of RED_TOLS
+    (mode 2: the 3-term polynomials only with the default tolerance and the third one).
+    Checks: strings merged, phases moved into the coefficients, a string is dropped only if
+    |aggregated coefficient| <= tol, kept coefficients exact, ||before - after|| <= (#dropped) * tol."""
     out = {'n': 0, 'nt': 0, 'viol': [], 'extra': {}, 'samples': []}
+    sc = {}
     for item in items:
-        pkg, N, t1, t2, full = item
-        ctx = Ctx(pkg, N, item)
+        pkg, N, t1, t2, mode = item[:5]
+        only = item[5] if len(item) > 5 else None       # replay: [index of the polynomial, index of the tolerance]
+        ctx = Ctx(pkg, N, item[:5], sc)
         B = ctx.B
         T = red_terms(N, pkg)
         eps = 1e-12 if pkg == 'py' else 3e-6
@@ -908,35 +1000,46 @@ def fn_reduce(items):
             polys.append((T[t1],))
         else:
             polys.append((T[t1], T[t2]))
-            if full:
+            if mode:
                 polys.extend((T[t1], T[t2], t3) for t3 in T)
-        for terms in polys:
+        for pi, terms in enumerate(polys):
+            if only is not None and only[0] != pi:
+                continue
             agg = {}
             for g, p, c in terms:
                 agg[g] = agg.get(g, 0) + c * IP[p]
             before = terms_val(terms, N)
             scale = max([1.0] + [abs(c) for g, p, c in terms])
-            for tolarg in RED_TOLS[pkg]:
+            tols = RED_TOLS[pkg]
+            if mode == 2 and len(terms) == 3:
+                tols = (tols[0], tols[2])
+            nontriv = len(agg) < len(terms) or any(p for g, p, c in terms)
+            for ti, tolarg in enumerate(tols):
+                if only is not None and only[1] != ti:
+                    continue
+                ctx.where = [pi, ti]
                 tol = DEFAULT_TOL[pkg] if tolarg is None else tolarg
                 P = B.poly(terms, N)
-                label = 'Poly[%s].reduce(%s)' % (tstr(terms), '' if tolarg is None else 'tol=%g' % tolarg)
                 ctx.n += 1
-                if len(agg) < len(terms) or any(p for g, p, c in terms):
+                if nontriv:
                     ctx.nt += 1
+
+                def label():
+                    return 'Poly[%s].reduce(%s)' % (tstr(terms), '' if tolarg is None else 'tol=%g' % tolarg)
                 try:
                     R = P.reduce() if tolarg is None else P.reduce(tol=tolarg)
                     tn, gs, ps, cs = B.parts(R, N)
                     if tn != 'PauliPolynomial':
                         raise ValueError('reduce returned a %s' % tn)
                 except Exception as e:
-                    ctx.report('C15/%s/reduce/raises-%s' % (pkg, type(e).__name__), '%s raised %s: %s' % (label, type(e).__name__, str(e)[:160]))
+                    ctx.report('C15/%s/reduce/raises-%s' % (pkg, type(e).__name__), '%s raised %s: %s' % (label(), type(e).__name__, str(e)[:160]))
                     continue
                 keys = [tuple(g) for g in gs.tolist()]
                 if len(set(keys)) != len(keys):
-                    ctx.report('C15/%s/reduce/not-merged' % pkg, '%s -> %s: repeated strings' % (label, _objstr(R)))
+                    ctx.report('C15/%s/reduce/not-merged' % pkg, '%s -> %s: repeated strings' % (label(), _objstr(R)))
                     continue
-                if (ps % 4 != 0).any():
-                    ctx.report('C15/%s/reduce/phase-left' % pkg, '%s -> %s keeps phase indicators %s' % (label, _objstr(R), ps.tolist()))
+                if ps.any() and (ps % 4 != 0).any():
+                    ctx.report('C15/%s/reduce/phase-left' % pkg, '%s -> %s keeps phase indicators %s' % (label(), _objstr(R), ps.tolist()))
                     continue
                 got = dict(zip(keys, cs.tolist()))
                 bad = ''
@@ -946,18 +1049,21 @@ def fn_reduce(items):
                     elif abs(got[g] - agg[g]) > eps * scale:
                         bad = 'coefficient of %s is %s, should be %s' % (ref.g_to_str(g), cstr(got[g]), cstr(agg[g]))
                 if bad:
-                    ctx.report('C15/%s/reduce/coefficient' % pkg, '%s -> %s: %s' % (label, _objstr(R), bad))
+                    ctx.report('C15/%s/reduce/coefficient' % pkg, '%s -> %s: %s' % (label(), _objstr(R), bad))
                     continue
                 dropped = [g for g in agg if g not in got]
                 big = [g for g in dropped if abs(agg[g]) > tol * (1 + 1e-6) + (0 if pkg == 'py' else 1e-7)]
                 if big:
                     ctx.report('C15/%s/reduce/dropped-above-tol' % pkg, '%s -> %s: dropped %s with |c|=%.3g > tol=%g' % (
-                        label, _objstr(R), ref.g_to_str(big[0]), abs(agg[big[0]]), tol), None, cstr(agg[big[0]]))
+                        label(), _objstr(R), ref.g_to_str(big[0]), abs(agg[big[0]]), tol), None, cstr(agg[big[0]]))
                     continue
-                after = dense_terms(gs, ps, cs, N)
-                dist = float(np.linalg.norm(before - after, 2))
-                if dist > len(dropped) * tol + eps * scale * max(1, len(terms)):
-                    ctx.report('C15/%s/reduce/norm' % pkg, '%s -> %s: operator changed by %.3g > %d*tol' % (label, _objstr(R), dist, len(dropped)))
+                diff = before - dense_terms(gs, ps, cs, N)
+                bound = len(dropped) * tol + eps * scale * max(1, len(terms))
+                dist = float(np.sqrt((np.abs(diff) ** 2).sum()))          # Frobenius >= spectral norm
+                if dist > bound:
+                    dist = float(np.linalg.norm(diff, 2))
+                    if dist > bound:
+                        ctx.report('C15/%s/reduce/norm' % pkg, '%s -> %s: operator changed by %.3g > %d*tol' % (label(), _objstr(R), dist, len(dropped)))
         _merge(out, ctx)
         if not out['samples'] and t2 >= 0:
             out['samples'].append({'pkg': pkg, 'N': N, 'first_terms': tstr((T[t1], T[t2])), 'polynomials': len(polys), 'tolerances': [str(t) for t in RED_TOLS[pkg]]})
@@ -1008,9 +1114,11 @@ def fn_linear(items, tier='quick'):
     one-qubit mask) x a menu of Clifford maps (transform_by, with and without mask):
     value -> U^dag value U, coefficients bitwise untouched, number of terms unchanged."""
     out = {'n': 0, 'nt': 0, 'viol': [], 'extra': {}, 'samples': []}
+    sc = {}
     for item in items:
-        pkg, N, s = item
-        ctx = Ctx(pkg, N, item)
+        pkg, N, s = item[:3]
+        only = item[3] if len(item) > 3 else None       # replay: [index of the action]
+        ctx = Ctx(pkg, N, item[:3], sc)
         B = ctx.B
         spec = linear_subjects(N, pkg)[s]
         val = refval(spec, N)
@@ -1040,7 +1148,10 @@ def fn_linear(items, tier='quick'):
                     else:
                         f = (lambda o, t=t, sg=sg, m=m: o.transform_by(B.cmap(t, sg), mask=B.m['torch'].tensor(m)))
                     acts.append(('transform_by(map1#%d,mask=%s)' % (k, m), 'transform_by-mask', U, f))
-        for label, kind, U, f in acts:
+        for ai, (label, kind, U, f) in enumerate(acts):
+            if only is not None and only[0] != ai:
+                continue
+            ctx.where = [ai]
             obj = B.build(spec, N)
             if spec[0] == 'Yprod' and pkg == 'py':
                 obj = obj.copy()
@@ -1091,7 +1202,7 @@ def legs(tier):
                    src_states=2 * npy * (npy + 1), timeout=3000,
                    bound='pyclifford N<=2, pool of %d atoms: all ordered atom pairs x 5 operators and all unary operators at depth 1; '
                          'x (5 operators x %d atoms x 2 sides + 3 unary) at depth 2%s' % (
-                             npy, npy, '' if quick else '; x (5 operators x core pool x 2 sides) at depth 3')))
+                             npy, npy, '' if quick else '; depth 3: x (5 operators x core atom x 2 sides) on top of every depth-2 node whose second atom is a core atom')))
     nb = {N: len(d1_specs(N, 'py')) for N in (1, 2)}
     out.append(Leg('balanced_py', fn_balanced, [['py', N, k] for N in (1, 2) for k in range(nb[N])], chunk=8,
                    bound='pyclifford N<=2: op(d1, d1) for all %d x %d depth-1 trees over the core pool x 5 operators' % (nb[1], nb[1])))
@@ -1102,12 +1213,12 @@ def legs(tier):
             its += [[pkg, N, -1, -1, 0]] + [[pkg, N, a, -1, 0] for a in range(T)]
             full_N = (N == 1) if quick else True
             if pkg == 'torch':
-                its += [[pkg, N, a, b, 0] for a in range(0, T) for b in range(T)]
+                its += [[pkg, N, a, b, 0] for a in range(T) for b in range(a if quick else 0, T)]
             else:
-                its += [[pkg, N, a, b, 1 if full_N else 0] for a in range(T) for b in range(T)]
+                its += [[pkg, N, a, b, (1 if not quick else (2 if a <= b else 0)) if full_N else 0] for a in range(T) for b in range(T)]
         out.append(Leg('reduce_%s' % pkg, fn_reduce, its, chunk=16 if pkg == 'py' else 64,
                        bound='%s: all polynomials with <=%s terms over 4 strings x 4 phases x coefficients %s, reduce with tol in %s' % (
-                           pkg, '3 (N=1) / 2 (N=2)' if (quick and pkg == 'py') else ('3' if pkg == 'py' else '2'), list(RED_COEF[pkg]), list(RED_TOLS[pkg]))))
+                           pkg, '3 (N=1; 3-term ones with the first two terms unordered and the default and 1e-6 tolerance only) / 2 (N=2)' if (quick and pkg == 'py') else ('3' if pkg == 'py' else '2'), list(RED_COEF[pkg]), list(RED_TOLS[pkg]))))
     flin = fn_linear if quick else fn_linear_thorough
     out.append(Leg('linear_py', flin, [['py', N, s] for N in (1, 2) for s in range(len(linear_subjects(N, 'py')))], chunk=1,
                    bound='pyclifford N<=2: every pool operator/list + two polynomials over the whole basis x all Hermitian generators '
